@@ -42,15 +42,9 @@ def AVERAGEIF(args, criteria, average_range=None):
     if isinstance(average_range, error.XLError):
         return average_range
     average_range = list(average_range)
-    average_count = 0
-    result = 0
     predicate = utils.parse_criteria(criteria)
-
-    for i, arg_i in enumerate(args):
-        if (predicate(args[i])):
-            result += average_range[i]
-            average_count += 1
-    return result / average_count
+    # averaged as AVERAGE averages (exactly), not by a running float sum
+    return statistics.mean(utils.plain_number(average_range[i]) for i, arg in enumerate(args) if predicate(arg))
 
 
 @dispatcher.register_for('COUNT')
@@ -157,15 +151,11 @@ def AVERAGEIFS(average_range, *criteria):
     average_range = utils.flatten(average_range)
     range_and_preds = list(zip((utils.flatten(r) for r in criteria[::2]),
                                (utils.parse_criteria(criterion) for criterion in criteria[1::2])))
-    sum_value = 0
-    count_value = 0
-    for i, a in enumerate(average_range):
-        if all(pred(criteria_range[i]) for criteria_range, pred in range_and_preds):
-            sum_value += a
-            count_value += 1
-    if count_value == 0:
-        return error.DIV0
-    return sum_value / count_value
+    selected = [utils.plain_number(a) for i, a in enumerate(average_range)
+                if all(pred(criteria_range[i]) for criteria_range, pred in range_and_preds)]
+    if not selected:
+        return error.DIV_ZERO
+    return statistics.mean(selected)  # as AVERAGE averages (exactly)
 
 
 @dispatcher.register_for('MAXIFS')
